@@ -214,6 +214,12 @@ class C09(BaseCheck):
             out.append((text[b:], 'drop-header', 'header line dropped'))
             how = r.choice([('ver:', 'vir:'), ('ver:', 'ver;'), ('ver:', 'Ver:'), ('ver:"', 'ver:'), ('ver:', ''), ('ver:"', 'ver: "')])
             out.append((text.replace(how[0], how[1], 1), 'damage-ver', 'version tag damaged: %r -> %r' % how))
+            vspans = by.get('ver', [])
+            if vspans and vspans[0][0] < b:
+                va, vb = vspans[0]            # the quoted version string of the header, quotes included
+                bad = r.choice(['""', '"abc"', '"v3"', '".."', text[va:vb - 1], '"-3.0"'])
+                out.append((text[:va] + bad + text[vb:], 'malformed-version',
+                            'version string replaced by %r (empty, non-numeric or unterminated)' % bad))
         escs = by.get('esc', [])
         if escs:
             a, b = r.choice(escs)
@@ -229,6 +235,10 @@ class C09(BaseCheck):
         if names:
             a, b = r.choice(names)
             out.append((text[:a] + text[a].upper() + text[a + 1:], 'upcase-name', 'first letter of a tag/column name upper-cased at %d' % a))
+            a, b = r.choice(names)
+            first = r.choice(['9', '_', '-', '0'])
+            out.append((text[:a] + first + text[a + 1:], 'bad-first-char-of-name',
+                        'first character of a tag/column name replaced by %r (names start with a lower-case ASCII letter)' % first))
             a, b = r.choice(names)
             ch = r.choice([u'\u00e9', u'\u00b5', u'\u0436', u'\uff11', u'\u00df', u'\u0663'])
             out.append((text[:b] + ch + text[b:], 'nonascii-in-name',
